@@ -272,7 +272,7 @@ def render_session(ctx, case):
     from lib.stubs import RecStream
     from harness import c08
     c08._load_protocols()
-    cmd = case
+    cmd, nlines = case if isinstance(case, tuple) else (case, 11)
     lines = ['[1000.100]  -> wl_display@1.get_registry(new id wl_registry@2)', 'some "chatter" \\ here', '[1000.200] wl_registry@2.global(1, "wl_seat", 7)',
              '[1000.300]  -> wl_registry@2.bind(1, "wl_seat", 7, new id [unknown]@3)', '[1003.300] wl_seat@3.capabilities(3)', '[1003.400]  -> wl_display@1.sync(new id wl_callback@4)',
              '[1003.500] wl_display@1.delete_id(4)', '[1003.600] wl_nope@9.x(nil, array, fd 5, -1.5, "it\'s")', '[1003.700] wl_seat@3.name("üñí")',
@@ -282,7 +282,7 @@ def render_session(ctx, case):
         def __init__(self): self.i = 0
         def readline(self):
             self.i += 1
-            return lines[self.i - 1] + '\n' if self.i <= len(lines) else ''
+            return lines[self.i - 1] + '\n' if self.i <= min(nlines, len(lines)) else ''
 
     def run():
         wl.Message.base_time = None
@@ -296,7 +296,7 @@ def render_session(ctx, case):
         return out.items + ['--err--'] + err.items
     c, p = _both(run)
     _check_pair(ctx, 'session + `%s`' % cmd, c, p)
-    ctx.check('the session produced output', len(p) > 12)
+    ctx.check('the session produced output', len(p) > nlines)
 
 
 MATCHER_TEXTS = ['wl_pointer', 'wl_pointer.button', '[wl_pointer, wl_keyboard ! 7a].motion(x=0, [5, nil])', 'B: 7c', 'xdg_*@.configure(states=activated)', '* ! wl_callback',
@@ -365,7 +365,8 @@ def obligations(tier):
         Ob('render-session', 'symx', 'a whole decoded session (notices, resolution, enum labels, passthrough, unknown interface) followed by one command, colour on vs off', FUNCS[11:],
            '11-line log; commands: list, list with matcher, filter, breakpoint, connection, help, help matcher, matcher, unknown, empty', render_session,
            cases=['list', 'list wl_seat ~ 2', 'filter wl_pointer ! wl_callback', 'breakpoint wl_seat.name', 'connection', 'connection A', 'connection zz', 'help', 'help list', 'help matcher',
-                  'matcher [a, b ! c].d(e=1, "s")', 'zzz', '', 'l [', 'filter', 'breakpoint']),
+                  'matcher [a, b ! c].d(e=1, "s")', 'zzz', '', 'l [', 'filter', 'breakpoint'] +
+                 [(c, n) for n in (0, 1, 2, 3) for c in ('list', 'list wl_nothing', 'list wl_registry ~ 1', 'connection', 'connection A', 'filter wl_nothing')]),
         Ob('paste-back-matcher', 'symx', 'colour sequences around any token (or all tokens) of a matcher text do not change what it parses to', FUNCS[16:17], '%d matcher texts x every token x 3 styles' % len(MATCHER_TEXTS),
            paste_matcher, cases=MATCHER_TEXTS),
         Ob('paste-back-command', 'symx', 'colour sequences around any token of a command line do not change what it does', FUNCS[20:21], '%d command lines x every token x 3 styles' % len(COMMAND_TEXTS),
